@@ -484,8 +484,8 @@ def known_class(case):
     negs = [i for i, t in enumerate(index) if isinstance(t, tuple) and t[0] == "s" and t[3] is not None and t[3] < 0]
     if ints and negs and min(ints) < max(negs):
         return "int-before-negstep-slice"
-    intarrs = [i for i, t in enumerate(index) if isinstance(t, tuple) and t[0] in ("l", "a", "d", "bl", "dw")]
-    if ints and intarrs and min(ints) < max(intarrs) and vkd in NONBROADCAST:
+    arrs = [i for i, t in enumerate(index) if is_arrayish(t)]
+    if ints and arrs and min(ints) < max(arrs) and vkd in ARRAYVALUED:
         return "int-before-index-array"
     if any(isinstance(t, tuple) and t[0] == "db" for t in index) and vkd in ("b1", "bc", "row", "dabc"):
         return "dask-bool-index+broadcast-value"
